@@ -130,6 +130,37 @@ impl Keys {
     }
 }
 
+/// Runs a handler made of synchronous operations only (see `case::Op::is_sync`) to completion.
+fn poll_once<F: std::future::Future<Output = ()>>(f: F) {
+    let mut f = std::pin::pin!(f);
+    let mut cx = std::task::Context::from_waker(std::task::Waker::noop());
+    if f.as_mut().poll(&mut cx).is_pending() {
+        panic!("nxv harness error: a synchronous input contains an operation that suspends");
+    }
+}
+
+/// Evaluates `$e` with `$f` bound to the event input of a node: the synchronous one if `$sync`.
+macro_rules! with_ev {
+    ($sync:expr, |$f:ident| $e:expr) => {
+        if $sync {
+            let $f = Node::on_event_sync;
+            $e
+        } else {
+            let $f = Node::on_event;
+            $e
+        }
+    };
+}
+/// Replier inputs are always `async` (NeXosim has no synchronous replier signature).
+macro_rules! with_q {
+    ($sync:expr, |$f:ident| $e:expr) => {{
+        let _ = $sync;
+        let $f = Node::on_query;
+        $e
+    }};
+}
+pub(crate) use {with_ev, with_q};
+
 pub struct Node {
     pub idx: u16,
     ctx: Arc<ExecCtx>,
@@ -177,6 +208,12 @@ impl Node {
                 }
             }
         }
+    }
+
+    /// Synchronous input (nodes with `sync_inputs`): NeXosim calls it eagerly when the message
+    /// is dequeued, whereas an `async` input is only run when the returned future is polled.
+    pub fn on_event_sync(&mut self, msg: Msg, cx: &mut Context<Self>) {
+        poll_once(self.handle(msg, cx, false));
     }
 
     pub async fn on_event(&mut self, msg: Msg, cx: &mut Context<Self>) {
@@ -286,25 +323,25 @@ impl Node {
                     seq_before: 0,
                 });
                 let _ = seq_before;
-                let res = match (mode, rel, abs) {
-                    (Mode::Plain, Some(d), _) => cx.schedule_event(Duration::from_nanos(d), Node::on_event, m).map(|_| None),
-                    (Mode::Plain, None, Some(t)) => cx.schedule_event(mtt(t), Node::on_event, m).map(|_| None),
-                    (Mode::Keyed(_), Some(d), _) => cx.schedule_keyed_event(Duration::from_nanos(d), Node::on_event, m).map(Some),
-                    (Mode::Keyed(_), None, Some(t)) => cx.schedule_keyed_event(mtt(t), Node::on_event, m).map(Some),
+                let res = with_ev!(self.spec().sync_inputs, |__f| match (mode, rel, abs) {
+                    (Mode::Plain, Some(d), _) => cx.schedule_event(Duration::from_nanos(d), __f, m).map(|_| None),
+                    (Mode::Plain, None, Some(t)) => cx.schedule_event(mtt(t), __f, m).map(|_| None),
+                    (Mode::Keyed(_), Some(d), _) => cx.schedule_keyed_event(Duration::from_nanos(d), __f, m).map(Some),
+                    (Mode::Keyed(_), None, Some(t)) => cx.schedule_keyed_event(mtt(t), __f, m).map(Some),
                     (Mode::Periodic(p), Some(d), _) => cx
-                        .schedule_periodic_event(Duration::from_nanos(d), Duration::from_nanos(p), Node::on_event, m)
+                        .schedule_periodic_event(Duration::from_nanos(d), Duration::from_nanos(p), __f, m)
                         .map(|_| None),
                     (Mode::Periodic(p), None, Some(t)) => {
-                        cx.schedule_periodic_event(mtt(t), Duration::from_nanos(p), Node::on_event, m).map(|_| None)
+                        cx.schedule_periodic_event(mtt(t), Duration::from_nanos(p), __f, m).map(|_| None)
                     }
                     (Mode::KeyedPeriodic(_, p), Some(d), _) => cx
-                        .schedule_keyed_periodic_event(Duration::from_nanos(d), Duration::from_nanos(p), Node::on_event, m)
+                        .schedule_keyed_periodic_event(Duration::from_nanos(d), Duration::from_nanos(p), __f, m)
                         .map(Some),
                     (Mode::KeyedPeriodic(_, p), None, Some(t)) => cx
-                        .schedule_keyed_periodic_event(mtt(t), Duration::from_nanos(p), Node::on_event, m)
+                        .schedule_keyed_periodic_event(mtt(t), Duration::from_nanos(p), __f, m)
                         .map(Some),
                     _ => unreachable!(),
-                };
+                });
                 let r = match res {
                     Ok(key) => {
                         if let Some(key) = key {
@@ -414,14 +451,14 @@ impl Node {
                         r.rvia = cid;
                         r
                     };
-                    self.reqs[rp].map_connect(move |m: &Msg| m.with_via(cid), rmap, Node::on_query, addr);
+                    with_q!(self.case.nodes[target as usize].sync_inputs, |__f| self.reqs[rp].map_connect(move |m: &Msg| m.with_via(cid), rmap, __f, addr));
                     ctx.log(Ev::Note(format!("connect node={} port={} target={} cid={}", self.idx, port, target, cid)));
                 }
             }
             Op::Connect { port, target, cid } => {
                 if (port as usize) < self.outs.len() && (target as usize) < self.addrs.len() {
                     let addr = self.addrs[target as usize].clone();
-                    self.outs[port as usize].map_connect(move |m: &Msg| m.with_via(cid), Node::on_event, addr);
+                    with_ev!(self.case.nodes[target as usize].sync_inputs, |__f| self.outs[port as usize].map_connect(move |m: &Msg| m.with_via(cid), __f, addr));
                     ctx.log(Ev::Note(format!("connect node={} port={} target={} cid={}", self.idx, port, target, cid)));
                 }
             }
@@ -495,14 +532,15 @@ impl ProtoModel for ProtoNode {
     fn build(mut self, cx: &mut BuildContext<Self>) -> Node {
         if !self.late_edges.is_empty() {
             let me = cx.address();
+            let me_sync = self.node.spec().sync_inputs;
             for (pos, port, e) in std::mem::take(&mut self.late_edges) {
                 let cid = e.cid;
                 let out = &mut self.children[pos].0.node.outs[port];
-                match (e.filter, e.map) {
-                    (Some((m, r)), _) => out.filter_map_connect(move |x: &Msg| (x.salt % (m.max(1) as u32) == r as u32).then(|| x.with_via(cid)), Node::on_event, me.clone()),
-                    (None, true) => out.map_connect(move |x: &Msg| x.with_via(cid), Node::on_event, me.clone()),
-                    (None, false) => out.connect(Node::on_event, me.clone()),
-                }
+                with_ev!(me_sync, |__f| match (e.filter, e.map) {
+                    (Some((m, r)), _) => out.filter_map_connect(move |x: &Msg| (x.salt % (m.max(1) as u32) == r as u32).then(|| x.with_via(cid)), __f, me.clone()),
+                    (None, true) => out.map_connect(move |x: &Msg| x.with_via(cid), __f, me.clone()),
+                    (None, false) => out.connect(__f, me.clone()),
+                })
             }
         }
         for (child, mailbox, name) in self.children {
@@ -539,6 +577,9 @@ impl Clock for ScriptClock {
         let ans = self.answers.get(self.calls).copied().flatten();
         self.calls += 1;
         self.ctx.log(Ev::ClockSync { time: tt(deadline), answer_lag: ans });
+        // Waiting for the wall clock takes time: other threads (holders of `Scheduler`
+        // handles) get to run while the simulation synchronises.
+        rt::yield_now();
         match ans {
             None => SyncStatus::Synchronized,
             Some(lag) => SyncStatus::OutOfSync(Duration::from_nanos(lag)),
@@ -555,20 +596,20 @@ pub struct Bench {
     pub orphans: Vec<Mailbox<Node>>,
 }
 
-fn connect_out(out: &mut Output<Msg>, e: &Edge, addrs: &[Address<Node>], sinks: &[Sink], ctx: &Arc<ExecCtx>) {
+fn connect_out(out: &mut Output<Msg>, e: &Edge, addrs: &[Address<Node>], sinks: &[Sink], ctx: &Arc<ExecCtx>, case: &Case) {
     let cid = e.cid;
     match e.target {
         Target::Node(t) => {
             let addr = addrs[t as usize].clone();
-            match (e.filter, e.map) {
+            with_ev!(case.nodes[t as usize].sync_inputs, |__f| match (e.filter, e.map) {
                 (Some((m, r)), _) => out.filter_map_connect(
                     move |x: &Msg| (x.salt % (m.max(1) as u32) == r as u32).then(|| x.with_via(cid)),
-                    Node::on_event,
+                    __f,
                     addr,
                 ),
-                (None, true) => out.map_connect(move |x: &Msg| x.with_via(cid), Node::on_event, addr),
-                (None, false) => out.connect(Node::on_event, addr),
-            }
+                (None, true) => out.map_connect(move |x: &Msg| x.with_via(cid), __f, addr),
+                (None, false) => out.connect(__f, addr),
+            })
         }
         Target::Sink(s) => {
             let c = ctx.clone();
@@ -590,7 +631,7 @@ fn connect_out(out: &mut Output<Msg>, e: &Edge, addrs: &[Address<Node>], sinks: 
     }
 }
 
-fn connect_req(req: &mut Requestor<Msg, Reply>, e: &Edge, addrs: &[Address<Node>]) {
+fn connect_req(req: &mut Requestor<Msg, Reply>, e: &Edge, addrs: &[Address<Node>], case: &Case) {
     let cid = e.cid;
     let Target::Node(t) = e.target else { return };
     let addr = addrs[t as usize].clone();
@@ -598,16 +639,16 @@ fn connect_req(req: &mut Requestor<Msg, Reply>, e: &Edge, addrs: &[Address<Node>
         r.rvia = cid;
         r
     };
-    match (e.filter, e.map) {
+    with_q!(case.nodes[t as usize].sync_inputs, |__f| match (e.filter, e.map) {
         (Some((m, r)), _) => req.filter_map_connect(
             move |x: &Msg| (x.salt % (m.max(1) as u32) == r as u32).then(|| x.with_via(cid)),
             rmap,
-            Node::on_query,
+            __f,
             addr,
         ),
-        (None, true) => req.map_connect(move |x: &Msg| x.with_via(cid), rmap, Node::on_query, addr),
-        (None, false) => req.connect(Node::on_query, addr),
-    }
+        (None, true) => req.map_connect(move |x: &Msg| x.with_via(cid), rmap, __f, addr),
+        (None, false) => req.connect(__f, addr),
+    })
 }
 
 /// Builds the bench described by `case`. Mailboxes are created in node index
@@ -640,7 +681,7 @@ pub fn build(case: &Arc<Case>, ctx: &Arc<ExecCtx>) -> Bench {
                 if matches!(e.target, Target::Node(t) if case.nodes[t as usize].late_mailbox) {
                     continue;
                 }
-                connect_out(&mut out, e, &addrs, &sinks, ctx);
+                connect_out(&mut out, e, &addrs, &sinks, ctx, case);
             }
             outs.push(out);
         }
@@ -648,7 +689,7 @@ pub fn build(case: &Arc<Case>, ctx: &Arc<ExecCtx>) -> Bench {
         for port in &spec.reqs {
             let mut req = Requestor::new();
             for e in port {
-                connect_req(&mut req, e, &addrs);
+                connect_req(&mut req, e, &addrs, case);
             }
             reqs.push(req);
         }
@@ -711,16 +752,16 @@ pub fn build(case: &Arc<Case>, ctx: &Arc<ExecCtx>) -> Bench {
                         r.rvia = cid;
                         r
                     };
-                    match (e.filter, e.map) {
+                    with_q!(case.nodes[t as usize].sync_inputs, |__f| match (e.filter, e.map) {
                         (Some((m, r)), _) => q.filter_map_connect(
                             move |x: &Msg| (x.salt % (m.max(1) as u32) == r as u32).then(|| x.with_via(cid)),
                             rmap,
-                            Node::on_query,
+                            __f,
                             addr,
                         ),
-                        (None, true) => q.map_connect(move |x: &Msg| x.with_via(cid), rmap, Node::on_query, addr),
-                        (None, false) => q.connect(Node::on_query, addr),
-                    }
+                        (None, true) => q.map_connect(move |x: &Msg| x.with_via(cid), rmap, __f, addr),
+                        (None, false) => q.connect(__f, addr),
+                    })
                 }
                 Source::Query(q)
             } else {
@@ -729,15 +770,15 @@ pub fn build(case: &Arc<Case>, ctx: &Arc<ExecCtx>) -> Bench {
                     let cid = e.cid;
                     let Target::Node(t) = e.target else { continue };
                     let addr = addrs[t as usize].clone();
-                    match (e.filter, e.map) {
+                    with_ev!(case.nodes[t as usize].sync_inputs, |__f| match (e.filter, e.map) {
                         (Some((m, r)), _) => src.filter_map_connect(
                             move |x: &Msg| (x.salt % (m.max(1) as u32) == r as u32).then(|| x.with_via(cid)),
-                            Node::on_event,
+                            __f,
                             addr,
                         ),
-                        (None, true) => src.map_connect(move |x: &Msg| x.with_via(cid), Node::on_event, addr),
-                        (None, false) => src.connect(Node::on_event, addr),
-                    }
+                        (None, true) => src.map_connect(move |x: &Msg| x.with_via(cid), __f, addr),
+                        (None, false) => src.connect(__f, addr),
+                    })
                 }
                 Source::Event(src)
             }
@@ -827,13 +868,23 @@ pub fn build(case: &Arc<Case>, ctx: &Arc<ExecCtx>) -> Bench {
         }
     }
 
-    let clock = ScriptClock { ctx: ctx.clone(), answers: case.cfg.clock.clone(), calls: 0 };
-    sim_init = sim_init.set_clock(clock);
-    if let Some(tol) = case.cfg.tolerance {
-        sim_init = sim_init.set_clock_tolerance(Duration::from_nanos(tol));
-    }
-    if case.cfg.timeout_set && !case.cfg.timeout_late {
-        sim_init = sim_init.set_timeout(Duration::from_secs(3600));
+    let mut clock = Some(ScriptClock { ctx: ctx.clone(), answers: case.cfg.clock.clone(), calls: 0 });
+    // The builder calls commute: they are issued in one of the six possible orders.
+    const ORDERS: [[u8; 3]; 6] = [[0, 1, 2], [0, 2, 1], [1, 0, 2], [1, 2, 0], [2, 0, 1], [2, 1, 0]];
+    for step in ORDERS[(case.cfg.builder_order % 6) as usize] {
+        match step {
+            0 => sim_init = sim_init.set_clock(clock.take().unwrap()),
+            1 => {
+                if let Some(tol) = case.cfg.tolerance {
+                    sim_init = sim_init.set_clock_tolerance(Duration::from_nanos(tol));
+                }
+            }
+            _ => {
+                if case.cfg.timeout_set && !case.cfg.timeout_late {
+                    sim_init = sim_init.set_timeout(Duration::from_secs(3600));
+                }
+            }
+        }
     }
 
     Bench { sim_init, addrs, sinks, sources, orphans }
